@@ -14,11 +14,12 @@ CONSTANTS LaneCount, LaneStrict,
           Family,      \* "simple": OooLanes (single-phase cipher lanes), "hmac": OooHmac (multi-phase hash lanes)
           LaneBlk,     \* hmac: block size 64 or 128
           LaneRound,   \* simple: kernel granularity (1; 4 for ZUC-EEA3)
+          LaneTieNew,  \* simple: FALSE; TRUE for AES-CBCS (the lane just filled wins a tie on submit)
           LaneFloor,   \* simple: 1, or 16 for DOCSIS-BPI: only the whole blocks go through the lanes (the partial last block
                        \* is ciphered when the job leaves its lane); 8 for DOCSIS-DES on AVX512
           LaneSyncShort \* TRUE: a message shorter than LaneFloor never enters a lane (DOCSIS-BPI AES); FALSE: it takes a
                        \* lane with length 0 (DOCSIS-DES x16)
-OS == INSTANCE OooLanes WITH L <- LaneCount, MAXLEN <- 65535, R <- LaneRound
+OS == INSTANCE OooLanes WITH L <- LaneCount, MAXLEN <- 65535, R <- LaneRound, TieNew <- LaneTieNew
 OH == INSTANCE OooHmac WITH L <- LaneCount, MAXLEN <- 65535, BLK <- LaneBlk,
                             PADMIN <- IF LaneBlk = 128 THEN 17 ELSE 9, Track <- FALSE
 NOJ == 0
